@@ -21,7 +21,7 @@ RULE = ('error kinds {404, 405, 400 undecodable path, 400 malformed chunked body
         'breakers, entities, quotes, braces and str.format syntax such as {0} {e.status} {url!r} {e.__class__}) placed in path, query '
         'string, Host and X-Forwarded-Host; observed through Ombott.__call__ with debug off. Non-trivial = a marker reached the request; '
         'distinct = distinct (error kind, rendering, marker placement and payload).')
-REQUIRED = ['tag_structure_compared_with_baseline', 'html_pages_parsed', 'json_bodies_parsed', 'marker_ids_found_escaped', 'kind_404', 'kind_405', 'kind_400_path', 'kind_400_body',
+REQUIRED = ['debugging_application_in_same_process', 'tag_structure_compared_with_baseline', 'html_pages_parsed', 'json_bodies_parsed', 'marker_ids_found_escaped', 'kind_404', 'kind_405', 'kind_400_path', 'kind_400_body',
             'kind_413', 'kind_500', 'kind_last_resort', 'in_query', 'in_host', 'in_path', 'format_syntax_markers']
 ASSUMPTIONS = ['debug is off', 'text the application itself supplies (abort(400, "<i>..")) is not request data',
                'the page is HTML: markup is what html.parser recognises as a tag, attribute or entity']
@@ -346,6 +346,14 @@ def run_unit(ctx, unit):
     rng = ctx.rng
     app = build_app()
     lr_app = build_lr_app()
+    # debug is a per-application setting: a debugging application created later in the same process must not
+    # switch the exception text and traceback on for the applications under test
+    import ombott
+    other = ombott.Ombott({'debug': True})
+    other.setup({'debug': True})
+    other.route('/x', 'GET', lambda: 1 / 0)
+    call_app(other, make_environ('GET', '/x'))
+    ctx.count('debugging_application_in_same_process')
     for i in range(unit['n']):
         kind = KINDS[i % len(KINDS)]
         run_kind(ctx, app, lr_app, rng, i, kind, as_json=(i // len(KINDS)) % 2 == 1)
